@@ -183,3 +183,17 @@ pub fn nth_str(alpha: &[u32], mut idx: usize) -> Vec<u32> {
 pub fn hex(b: &[u8]) -> String {
     ::hex::encode(b)
 }
+
+/// A sink that implements nothing but `write` and `flush` (so every provided method of the trait -
+/// write_all, write_vectored, ... - is the standard library's default): what a hashing writer, an
+/// encoder or a socket wrapper looks like to the library, unlike `Vec<u8>` which overrides them.
+pub struct Plain<'a>(pub &'a mut Vec<u8>);
+impl std::io::Write for Plain<'_> {
+    fn write(&mut self, b: &[u8]) -> std::io::Result<usize> {
+        self.0.extend_from_slice(b);
+        Ok(b.len())
+    }
+    fn flush(&mut self) -> std::io::Result<()> {
+        Ok(())
+    }
+}
